@@ -17,8 +17,12 @@ pub enum Ctx {
     Subscribe,
     Unsubscribe,
     Disconnect,
+    /// a publish built with `correlate()` that also carries caller properties
+    PublishCorrelated,
+    /// the publication offered by `reply()` / `reply_owned()` with caller properties added
+    Reply,
 }
-pub const CTXS: [Ctx; 5] = [Ctx::Publish, Ctx::Will, Ctx::Subscribe, Ctx::Unsubscribe, Ctx::Disconnect];
+pub const CTXS: [Ctx; 7] = [Ctx::Publish, Ctx::Will, Ctx::Subscribe, Ctx::Unsubscribe, Ctx::Disconnect, Ctx::PublishCorrelated, Ctx::Reply];
 
 #[derive(Clone, Copy, Debug, PartialEq, Eq)]
 pub enum V {
@@ -37,6 +41,13 @@ pub struct Env {
 pub fn verdict(p: &Prop, ctx: Ctx, env: &Env) -> V {
     use Prop::*;
     use V::*;
+    // the request/response builders produce ordinary PUBLISH packets: same table, except that a
+    // second Correlation Data next to the one the builder adds is a protocol error either way
+    let ctx = match (ctx, p) {
+        (Ctx::PublishCorrelated | Ctx::Reply, CorrelationData(_)) => return DontCare,
+        (Ctx::PublishCorrelated | Ctx::Reply, _) => Ctx::Publish,
+        (c, _) => c,
+    };
     match (ctx, p) {
         (Ctx::Publish | Ctx::Will, PayloadFormat(v)) => if *v <= 1 { Accept } else { Reject },
         (Ctx::Publish | Ctx::Will, MessageExpiry(_) | ContentType(_) | ResponseTopic(_) | CorrelationData(_)) => Accept,
@@ -97,6 +108,8 @@ fn request_step(ctx: Ctx, p: &Prop) -> Step {
         Ctx::Subscribe => Step::Subscribe(SubSpec { filters: vec![FilterSpec { filter: "c19/#".into(), max_qos: 1, no_local: false, rap: false, rh: 0 }], props: vec![p.clone()], cancel_at: None }),
         Ctx::Unsubscribe => Step::Unsubscribe(UnsubSpec { filters: vec!["c19".into()], props: vec![p.clone()], cancel_at: None }),
         Ctx::Disconnect => Step::Disconnect(DiscSpec { reason: Some(0), props: Some(vec![p.clone()]), cancel_at: None }),
+        Ctx::PublishCorrelated => Step::Publish(PubSpec { topic: "c19".into(), payload: PayloadSpec::Bytes(b"ab".to_vec()), qos: 1, retain: false, props: vec![p.clone()], correlate: Some(vec![0xC0, 0xDE]), cancel_at: None }),
+        Ctx::Reply => unreachable!(),
     }
 }
 
@@ -132,19 +145,19 @@ impl Check for C19 {
         "exploration"
     }
     fn rule(&self) -> String {
-        "EXHAUSTIVE enumeration of 27 property kinds x {publish, will, subscribe, unsubscribe, disconnect} x value variants (legal, boundary, illegal) x session states {idle, in-flight work with withheld acks, dead handle, send window used up, all eight in-flight slots used} against a reference table written from the MQTT 5.0 text (Accept / Reject / DontCare): Reject => documented error (InvalidRequest also when the request could not have been admitted anyway) and no trace (no byte of the request written, snapshot incl. the identifier counter, handle statuses, quiescence and can_publish unchanged); Accept => the request succeeds with ample buffers and the property is decoded from the wire with the same value; plus empty SUBSCRIBE/UNSUBSCRIBE lists, and Maximum QoS {absent,0,1} x requested {0,1,2} x auto-downgrade {on,off} x {idle, in-flight work, dead handle, resumed reconnect after a different Maximum QoS, fresh reconnect after a different Maximum QoS}: no PUBLISH above the maximum on the wire, returned handle kind (none / completed by PUBACK / completed by PUBCOMP) matches the QoS sent. Every cell is a distinct non-trivial case.".into()
+        "EXHAUSTIVE enumeration of 27 property kinds x {publish, will, subscribe, unsubscribe, disconnect, publish built with correlate(), reply()/reply_owned() publication with caller properties} x value variants (legal, boundary, illegal) x session states {idle, in-flight work with withheld acks, dead handle, send window used up, all eight in-flight slots used} against a reference table written from the MQTT 5.0 text (Accept / Reject / DontCare): Reject => documented error (InvalidRequest also when the request could not have been admitted anyway) and no trace (no byte of the request written, snapshot incl. the identifier counter, handle statuses, quiescence and can_publish unchanged); Accept => the request succeeds with ample buffers and the property is decoded from the wire with the same value; plus empty SUBSCRIBE/UNSUBSCRIBE lists, and Maximum QoS {absent,0,1} x requested {0,1,2} x auto-downgrade {on,off} x {idle, in-flight work, dead handle, resumed reconnect after a different Maximum QoS, fresh reconnect after a different Maximum QoS}: no PUBLISH above the maximum on the wire, returned handle kind (none / completed by PUBACK / completed by PUBCOMP) matches the QoS sent. Every cell is a distinct non-trivial case.".into()
     }
     fn assumptions(&self) -> Vec<String> {
         vec!["the reference table (requests.rs::verdict, DESIGN.md appendix A) is a correct reading of MQTT 5.0".into(), "string content rules (wildcards in a response topic, U+0000) are invalid user input and not generated".into()]
     }
     fn workloads(&self) -> Vec<Workload> {
-        vec![Workload { name: "property-cells", quick: 27 * 5 * 5, thorough: 27 * 5 * 5 }, Workload { name: "qos-cap-cells", quick: 5 * 3 * 2 * 3, thorough: 5 * 3 * 2 * 3 }, Workload { name: "empty-lists", quick: 6, thorough: 6 }]
+        vec![Workload { name: "property-cells", quick: 27 * 7 * 5, thorough: 27 * 7 * 5 }, Workload { name: "qos-cap-cells", quick: 5 * 3 * 2 * 3, thorough: 5 * 3 * 2 * 3 }, Workload { name: "empty-lists", quick: 6, thorough: 6 }]
     }
     fn min_nontrivial(&self, _tier: Tier) -> usize {
         400
     }
     fn required_counters(&self) -> Vec<&'static str> {
-        vec!["cells_accept", "cells_reject", "no_trace_comparisons", "downgrade_cells", "dead_handle_cells", "blocked_state_cells", "qos_cap_cells_after_reconnect"]
+        vec!["cells_accept", "cells_reject", "no_trace_comparisons", "downgrade_cells", "dead_handle_cells", "blocked_state_cells", "qos_cap_cells_after_reconnect", "reply_cells"]
     }
     fn exhaustive(&self) -> bool {
         true
@@ -180,8 +193,51 @@ impl Check for C19 {
                 // 0 idle, 1 in-flight, 2 dead handle, 3 send window used up (Receive Maximum 1, one
                 // publish unacknowledged), 4 all eight in-flight slots used
                 let state = (index % 5) as u8;
-                let ctx = CTXS[((index / 5) % 5) as usize];
-                let id = ALL_PROP_IDS[(index / 25) as usize];
+                let ctx = CTXS[((index / 5) % 7) as usize];
+                let id = ALL_PROP_IDS[(index / 35) as usize];
+                if ctx == Ctx::Reply {
+                    // the reply is encoded on an auxiliary, freshly connected session: one state only
+                    if state != 0 {
+                        return out;
+                    }
+                    for (k, p) in variants(id, &mut rng).into_iter().enumerate() {
+                        let env = Env { topic_alias_max: 0, connect_expiry: 0 };
+                        let v = verdict(&p, ctx, &env);
+                        let mode = if k % 2 == 0 { ReplyMode::Borrowed } else { ReplyMode::Owned { topic_cap: 64, corr_cap: 64 } };
+                        let label = format!("{}/{:?}/Reply/{:?}", Prop::name(id), p, mode);
+                        out.key(format!("cell/{}/Reply/{:?}/state0", Prop::name(id), v));
+                        let cfg = CaseCfg { rx: 256, tx: 2048, keepalive: 0, ..CaseCfg::default() };
+                        let steps = vec![
+                            connect_with(SpMode::Force(false), AckMode::Immediate, vec![]),
+                            Step::Broker(BrokerAct::Send(SPacket::Publish { dup: false, qos: 0, retain: false, topic: "req".into(), pid: None, props: vec![Prop::ResponseTopic("resp/t".into()), Prop::CorrelationData(vec![7, 0xFF, 7])], payload: vec![1] })),
+                            Step::PollReply { mode, payload: b"ok".to_vec(), user_props: Some(vec![p.clone()]), qos: 1 },
+                        ];
+                        let pc = p.clone();
+                        judge_run(&cfg, steps, label.clone(), &mut out, &mut |t, out| {
+                            match v {
+                                V::Accept => out.count("cells_accept", 1),
+                                V::Reject => out.count("cells_reject", 1),
+                                V::DontCare => out.count("cells_dontcare", 1),
+                            }
+                            out.count("reply_cells", 1);
+                            let Some(rep) = t.log.replies.first() else {
+                                out.violations.push(viol("C19", "C19/reply/no-reply-offered", format!("{}: the request carried a response topic but no reply was produced", label)));
+                                return;
+                            };
+                            match (v, &rep.sent) {
+                                (V::Reject, Some(k)) => out.violations.push(viol("C19", format!("C19/reply/{}={}/accepted", Prop::name(id), value_class(&pc)), format!("reply with the illegal property {:?} was accepted and sent as {:?}", pc, k))),
+                                (V::Accept, None) => out.violations.push(viol("C19", format!("C19/reply/{}/refused", Prop::name(id)), format!("reply with the legal property {:?} was refused", pc))),
+                                (V::Accept, Some(CPacket::Publish { props, topic, .. })) => {
+                                    if topic != "resp/t" || !props.contains(&pc) || !props.contains(&Prop::CorrelationData(vec![7, 0xFF, 7])) {
+                                        out.violations.push(viol("C19", format!("C19/reply/{}/not-on-wire", Prop::name(id)), format!("reply with {:?} went out to {:?} with properties {:?}", pc, topic, props)));
+                                    }
+                                }
+                                _ => {}
+                            }
+                        });
+                    }
+                    return out;
+                }
                 for p in variants(id, &mut rng) {
                     let v = verdict(&p, ctx, &ENV);
                     let label = format!("{}/{:?}/{:?}/state{}", Prop::name(id), p, ctx, state);
@@ -293,6 +349,7 @@ impl Check for C19 {
                                 let c = &t.w.conns[0];
                                 let found = c.out.packets.iter().any(|k| match (&k.pkt, ctx) {
                                     (CPacket::Publish { props, topic, .. }, Ctx::Publish) => topic == "c19" && props == &vec![pc.clone()],
+                                    (CPacket::Publish { props, topic, .. }, Ctx::PublishCorrelated) => topic == "c19" && props.len() == 2 && props.contains(&pc) && props.contains(&Prop::CorrelationData(vec![0xC0, 0xDE])),
                                     (CPacket::Subscribe { props, .. }, Ctx::Subscribe) => props == &vec![pc.clone()],
                                     (CPacket::Unsubscribe { props, .. }, Ctx::Unsubscribe) => props == &vec![pc.clone()],
                                     (CPacket::Disconnect { props, .. }, Ctx::Disconnect) => props == &vec![pc.clone()],
